@@ -1061,6 +1061,28 @@ func (u *Unit) convert(st *State, x Val, from, to types.Type) Val {
 		n := u.strLen(xt)
 		bs := u.ctx.Define("bytes", mkslice(r, IntLit(0), n, n))
 		u.assume(st, Eq(u.strOfBytes(st, bs, xt.Sort), xt))
+		if lit, isLit := u.ctx.StrLitTable()[xt.S]; isLit && len(lit) > 0 {
+			// the bytes of a string literal are known: all of a short one, else the first and the last
+			asort := ArrSort(SInt, SInt)
+			if u.bvMode {
+				asort = ArrSort(SInt, SBV8)
+			}
+			arr := App(asort, f, xt)
+			idx := []int{0, len(lit) - 1}
+			if len(lit) <= 8 {
+				idx = idx[:0]
+				for k := range lit {
+					idx = append(idx, k)
+				}
+			}
+			for _, k := range idx {
+				if u.bvMode {
+					u.assume(st, Eq(Select(arr, IntLit(int64(k))), &Term{fmt.Sprintf("#x%02x", lit[k]), SBV8}))
+				} else {
+					u.assume(st, Eq(Select(arr, IntLit(int64(k))), IntLit(int64(lit[k]))))
+				}
+			}
+		}
 		return bs
 	case xt.Sort == SSlice && (ts == SStr || ts == SString):
 		// []byte -> string: an uninterpreted function of the byte array contents
